@@ -54,7 +54,7 @@ func applyFilter(jqFilter string, fl filter.Filter, filterFn func(obj *unstructu
 		res.Metadata.Checksum = utils_checksum.CalculateChecksum(string(data))
 	} else {
 		var err error
-		var filtered map[string]any
+		var filtered any
 		filtered, err = fl.ApplyFilter(jqFilter, obj.UnstructuredContent())
 		if err != nil {
 			return nil, fmt.Errorf("jqFilter: %v", err)
@@ -65,6 +65,11 @@ func applyFilter(jqFilter string, fl filter.Filter, filterFn func(obj *unstructu
 			return nil, fmt.Errorf("jqFilter: %v", err)
 		}
 		res.FilterResult = filtered
+		// A string in FilterResult is taken for JSON text (see ObjectAndFilterResult.Map):
+		// keep a string result in that form.
+		if _, isString := filtered.(string); isString {
+			res.FilterResult = string(bytes)
+		}
 		res.Metadata.Checksum = utils_checksum.CalculateChecksum(string(bytes))
 	}
 
